@@ -155,6 +155,15 @@ def run(ctx):
             for c in calls_in(n):
                 if isinstance(c.func, ast.Attribute) and c.func.attr == "append" and c.args and const_str(c.args[0]):
                     widen.setdefault(key, []).append(const_str(c.args[0]))
+    # statuses the conversion drops: `[s for s in execution_statuses if s != "CACHED"]`
+    dropped: set[str] = set()
+    for n in ast.walk(fes):
+        if isinstance(n, ast.ListComp) and len(n.generators) == 1 and isinstance(n.elt, ast.Name):
+            for cond in n.generators[0].ifs:
+                if isinstance(cond, ast.Compare) and len(cond.ops) == 1 and isinstance(cond.ops[0], ast.NotEq) and const_str(cond.comparators[0]):
+                    dropped.add(const_str(cond.comparators[0]))
+                if isinstance(cond, ast.Compare) and len(cond.ops) == 1 and isinstance(cond.ops[0], ast.NotIn) and isinstance(cond.comparators[0], (ast.Tuple, ast.List, ast.Set)):
+                    dropped |= {const_str(e) for e in cond.comparators[0].elts if const_str(e)}
     uses_term = any(src(c).find("_job_status_term") >= 0 for c in calls_in(fes))
     if not uses_term:
         raise AnalysisError("filter_execution_statuses no longer maps statuses through _job_status_term", "CallGraphQuery.filter_execution_statuses")
@@ -163,8 +172,9 @@ def run(ctx):
             continue
         d = exec_display(display(row))
         rowname = f"root ended={row['end_time'] is not None},result={'NULL' if row['type'] is None else ('Error' if row['type']==ERR else 'other')},cached={row['cached']}"
-        for s in EXEC_STATUSES:
-            js = [s] + widen.get(s, [])
+        # every status the filter accepts, including CACHED (a job status that no execution is ever displayed with)
+        for s in EXEC_STATUSES + ["CACHED"]:
+            js = ([] if s in dropped else [s]) + widen.get(s, [])
             mt = any(matches(x, row) for x in js)
             r2.check(mt == (d == s), f"{qm.rel}:CallGraphQuery.filter_execution_statuses:{s}:{rowname}", f"execution with {rowname} is displayed {d} but filter {s} {'matches' if mt else 'does not match'}", qm.rel, fes.lineno, note=f"display={d}")
     ctx.assume("an Execution row is only written together with its root Job row (record_job_start), so executions without a root job are outside the table")
